@@ -269,9 +269,14 @@ def link_closure(ctx, cfg, cb, info, role, rule):
                         N_ = ap.tenv.length([x for x in lt["args"] if x.get("k") != "region"][-1])
                         pv = ap.read_cell(State(drv.mem, drv.facts), op[1], (fpos,), {"k": "prim", "n": "usize"})
                         steps = None
-                        for x in resolved_args(ap, drv):
+                        ra_ = resolved_args(ap, drv)
+                        for x in ra_:
                             if find_in(x, lambda t: t == cval):
                                 steps = pipe_max(ap, x)
+                                if steps is None and x == cval and ra_ and x is not ra_[0] and drv.fn.startswith("core::iter::") and drv.fn.split("::")[-1] in (
+                                        "fold", "rfold", "for_each", "try_fold", "try_rfold", "try_for_each"):
+                                    # the closure is the consumer's own argument: it is called once per item of the iterator the driver runs over
+                                    steps = pipe_max(ap, ra_[0])
                         room = pv[0] == "I" and steps is not None and ap.prove(drv.facts, "Ge", N_ - pv[1], steps)
                         ok = live and bool(room)
                         det += "; cursor field '%s' of owner %s, whose own storage the slots are; owner local _%d dropped on the unwind path of %s: %s; at most %r steps with %r slots left: %s" % (
